@@ -169,7 +169,7 @@ def main(run):
     rnd = random.Random(run.seed + 41)
     progs = [generators.lazy_program(rnd, own_link=False) for _ in range(3000 if thorough else 300)]
     recs3, inc3 = explore_given(run, progs, "LayoutIncFiles", [512], label=f"AsmCore given: {len(progs)} generated lazy-engine programs")
-    tasks += replay_all(run, recs3, inc3, {"harness_link": True}, nontrivial)
+    tasks += replay_all(run, recs3, inc3, {"harness_link": True, "mid_link": True}, nontrivial)
     run.note("lazy_engine_programs", {"generated": len(progs), "accepted_by_spec": sum(1 for r in recs3 if r["ok"])})
     ex = [t for t in tasks if nontrivial(t[0])]
     if ex:
